@@ -7,6 +7,7 @@ from ..oread import read_smiles, Mol
 from ..symstr import TokStr, make_tokens, model_value
 
 A_STEREO = dech.A_CORE + ["[/C]", "[\\C]", "[-/Ring1]", "[\\/Ring1]", "[C@]", "[C@@H1]", "[13C]", "[N]", "[=N]"]
+A_STEREO_Q = ["[C]", "[=C]", "[Branch1]", "[Ring1]", "[/C]", "[\\C]", "[-/Ring1]", "[\\/Ring1]", "[C@]", "[C@@H1]", "[13C]", "[N]"]
 A_BAD = ["[C]", "[=C]", "[#C]", "[Branch1]", "[=Branch2]", "[Ring1]", "[=Ring1]", "[epsilon]",
          "[CH4]", "[Foo]", "[C+0]", "[Branch4]", "[=Ring9]", "[eps]", "[CH9]", "[--Ring1]", "[NH1]", "[O]"]
 A_FRAG = ["[C]", "[=C]", "[N]", "[#N]", "[Branch1]", "[Ring1]", "[=Ring1]", "[Ring2]", "[epsilon]", "[nop]", "."]
@@ -58,7 +59,8 @@ def run(rep, tier, seed, budget):
     if quick:
         plan += [("core", dech.A_CORE, dech.KEYS_CORE, n) for n in (1, 2, 3, 4)]
         plan += [("ring-heavy", A_RING, ["C", "?"], n) for n in (6,)]
-        plan += [("stereo/isotope", A_STEREO, ["C", "N", "?"], n) for n in (1, 2, 3)]
+        plan += [("stereo/isotope", A_STEREO, ["C", "N", "?"], n) for n in (1, 2)]
+        plan += [("stereo/isotope (reduced)", A_STEREO_Q, ["C", "N", "?"], 3)]
         plan += [("capacity-0 / outside the grammar", A_BAD, ["C", "N", "O", "?"], n) for n in (1, 2, 3)]
         plan += [("fragments, [nop]", A_FRAG, ["C", "N", "?"], n) for n in (1, 2, 3)]
     else:
@@ -95,6 +97,36 @@ def run(rep, tier, seed, budget):
     res = driver.explore_parallel(tail_path, 40)
     rep.add_part("differential: 20-atom chain + ring/branch symbol + 0-2 index symbols at the end of the string (fewer than requested)", res,
                  {"chain": 20, "head": ["[Ring2]", "[Ring3]", "[=Ring2]", "[Branch2]", "[Branch3]", "[Ring1]"], "index_symbols_present": "0..2, free over 17 symbols"})
+
+    # nested branches whose last in-budget symbol is itself a ring / branch symbol (its index lies past the budget)
+    def nested_path(eng, col):
+        table = dict(ctx._presets0["default"])
+        ctx.reset(table)
+        b1 = make_tokens("b", 1, ["[=Branch1]", "[Branch1]"] if quick else ["[=Branch1]", "[Branch1]", "[#Branch1]"])[0]
+        i1 = make_tokens("i", 1, ["[Ring2]", "[Branch1]"] if quick else ["[Ring1]", "[Ring2]", "[Branch1]", "[=Branch1]"])[0]
+        b2 = make_tokens("c", 1, ["[Branch1]", "[Ring1]"] if quick else ["[Branch1]", "[=Branch1]", "[Ring1]"])[0]
+        i2 = make_tokens("j", 1, ["[C]", "[Ring1]"] if quick else ["[C]", "[Ring1]", "[Ring2]"])[0]
+        rest = make_tokens("r", 4 if quick else 5, ["[C]", "[Ring1]", "[=C]", "[F]"] if quick else ["[C]", "[Ring1]", "[=C]", "[Branch1]", "[F]"])
+        toks = ["[C]", b1, i1, b2, i2] + rest
+        r = dech.run_decoder(ctx, TokStr(toks))
+        d = oderiv.derive(toks, table)
+        pb = None
+        if r[0] == "exc" or (d.error is None) != (r[0] == "ok"):
+            pb = "outcome differs"
+        elif r[0] == "ok":
+            out = str(r[1])
+            pb = oderiv.compare_with_output(d, read_smiles(out) if out else Mol())
+            col.nontrivial(out)
+            col.sample({"output": out})
+        if pb:
+            mdl = eng.current_model()
+            col.candidate({"prop": "C02", "kind": "deriv", "selfies": dech.concrete_selfies(mdl, toks), "table": None})
+
+    left = t_end - time.time()
+    if left > 10:
+        res = driver.explore_parallel(nested_path, min(40, left * 0.4))
+        rep.add_part("differential nested branches: atom, branch, index, nested branch/ring, index, 5 free symbols (budgets that end inside an index)", res,
+                     {"shape": "a b1 i1 b2 i2 r r r r r", "b1": 3, "i1": 4, "b2": 3, "i2": 3, "r": "5 symbols each", "table": "default"})
 
     for tag, alpha, keys, n in plan:
         left = t_end - time.time()
